@@ -1,9 +1,15 @@
 import NbioVerif.Properties.C09
 #print axioms Resp.c09_write_returns_len
+#print axioms Resp.c09_stage1
 #print axioms Resp.c09_wire_shape
 #print axioms Resp.c09_stage1_unframe
 #print axioms Resp.unchunk_encode
 #print axioms Resp.c09_framing_choice
+#print axioms Resp.c09_stage2_head
+#print axioms Resp.c09_stage2_trailers
+#print axioms Resp.c09_stage2_split
+#print axioms Resp.parseHead_headBytes
+#print axioms Resp.parseStatusLine_statusBody
 #print axioms Resp.c09_identity_auto_length_partial
 #print axioms Resp.c09_flush_identity_counterexample
 #print axioms Resp.c09_head_counterexample
